@@ -55,7 +55,8 @@ Accept(y, e) ==
             ELSE IF FxLt(e.den, FxNeg(e.ad)) \/ (FxIsZero(e.den) /\ FxIsZero(e.ad)) THEN IsNum(y) /\ FxEq(Fx(y), e.zero)
             ELSE TRUE
       [] e.kind = "vidya" ->      \* exact: y = x when up + dn = 0; within rounding of that threshold the step is exempt
-            IF FxIsZero(e.tot) \/ FxGt(e.tot, FxMulInt(e.atot, 8)) THEN IsNum(y) /\ Within(Fx(y), e.v, e.tol) ELSE TRUE
+            IF FxIsZero(e.tot) \/ FxGt(e.tot, FxMulInt(e.atot, 8)) THEN IsNum(y) /\ Within(Fx(y), e.v, e.tol)
+            ELSE IsNum(y) /\ FxGe(Fx(y), FxSub(e.lo, e.tol)) /\ FxLe(Fx(y), FxAdd(e.hi, e.tol))
       [] e.kind = "candle" -> /\ "o" \in DOMAIN y
                               /\ Within(Fx(y.o), e.c.o, e.tol) /\ Within(Fx(y.h), e.c.h, e.tol)
                               /\ Within(Fx(y.l), e.c.l, e.tol) /\ Within(Fx(y.c), e.c.c, e.tol)
